@@ -316,7 +316,7 @@ func (f *Frame) loopHead(li *loopInfo, preds []*ssa.BasicBlock, edges []string) 
 		}
 		nv := vc.fresh(k+"@loop", vc.eng.keySort[k])
 		f.cur.m[k] = nv
-		if k == "alloc" || k == "ghost:dyncalls" {
+		if k == "alloc" || strings.HasPrefix(k, "ghost:") {
 			vc.assume(S("<=", f.get(entryState, k), nv))
 		}
 	}
@@ -916,7 +916,7 @@ func (f *Frame) havocAll(st *State, why string) {
 		olds[k] = old
 		nv := vc.fresh(k+"@havoc", vc.eng.keySort[k])
 		f.set(st, k, nv)
-		if k == "alloc" || k == "ghost:dyncalls" {
+		if k == "alloc" || strings.HasPrefix(k, "ghost:") {
 			vc.assume(S("<=", old, nv))
 		}
 	}
